@@ -417,6 +417,8 @@ def r7_formatter_pipeline(ctx):
                 f = None
                 for x in trace:
                     f = f or fmt_call(x)
+                if f is None:
+                    vals.add("<a path that returns without calling the ICU formatter>")
                 if f is not None:
                     v_ = ", ".join(norm(mirsum.fmt(a), names) for a in f[2][1:])
                     for rx_, rp_ in CLASS:
